@@ -11,6 +11,7 @@ import (
 	"crypto/sha256"
 	"crypto/sha512"
 	"fmt"
+	hpke "github.com/cisco/go-hpke"
 	"math/big"
 	"sync"
 
@@ -146,7 +147,39 @@ type world struct {
 	ecPub                                *patecdsa.PublicKey
 	ecHash, ecSigASN1, ecR, ecS          []byte
 	edPub, edMsg, edSig                  []byte
-	ownKey, blindedSigner                *stdecdsa.PrivateKey // a key of the harness; the world client's blinded signing key d*r
+	ownKey, blindedSigner                *stdecdsa.PrivateKey     // a key of the harness; the world client's blinded signing key d*r
+	iss3seq                              *type3.RateLimitedIssuer // the issuer of the sequence target (origins are added to it as the test runs)
+	req3seq                              []byte
+}
+
+// sealedRequest builds a type-3 request whose inner request is correctly HPKE-sealed to the issuer's published name key
+// for the given (request key, origin), signed by signer (harness-side go-hpke and crypto/ecdsa; nothing of pat-go's
+// client). With a request key that is no curve point the issuer gets past decryption and meets the bad key afterwards.
+func sealedRequest(nameKeyEnc, requestKey []byte, tokenKeyID byte, origin string, signer *stdecdsa.PrivateKey) []byte {
+	su, err := hpke.AssembleCipherSuite(hpke.DHKEM_X25519, hpke.KDF_HKDF_SHA256, hpke.AEAD_AESGCM128)
+	must(err)
+	pk, err := su.KEM.DeserializePublicKey(nameKeyEnc[3:35])
+	must(err)
+	enc, ctx, err := hpke.SetupBaseS(su, rt.NewDRBG(append([]byte("sealed request "), requestKey...)), pk, []byte("TokenRequest"))
+	must(err)
+	nkid := sha256.Sum256(nameKeyEnc)
+	aad := []byte{nameKeyEnc[0], 0x00, 0x20, 0x00, 0x01, 0x00, 0x01, 0x00, 0x03}
+	aad = append(append(aad, requestKey...), nkid[:]...)
+	padded := make([]byte, 32*((len(origin)+31)/32))
+	if len(origin) == 0 {
+		padded = make([]byte, 32)
+	}
+	copy(padded, origin)
+	inner := ref.EncodeInnerRequest(tokenKeyID, bytes.Repeat([]byte{0x01}, 256), padded)
+	ct := append(enc, ctx.Seal(aad, inner)...)
+	msg := ref.EncodeRateLimitedRequest(requestKey, nkid[:], ct, nil)
+	dg := sha512.Sum384(msg)
+	r, sv, err := stdecdsa.Sign(rt.NewDRBG(dg[:]), signer, dg[:])
+	must(err)
+	sig := make([]byte, 96)
+	r.FillBytes(sig[:48])
+	sv.FillBytes(sig[48:])
+	return append(msg, sig...)
 }
 
 // resign returns the input with a fresh, valid request signature if it has the shape of a type-3 request
@@ -283,6 +316,12 @@ func theWorld() *world {
 			x.req3Variants = append(x.req3Variants, append([]byte{}, stv.Request().Marshal()...))
 		}
 		x.encap = x.iss3.NameKey().Marshal()
+		reseed("3seq")
+		x.iss3seq = type3.NewRateLimitedIssuer(gen.RSAPool()[1])
+		must(x.iss3seq.AddOrigin("origin.example"))
+		stq, err := type3.NewRateLimitedClientFromSecret(sec).CreateTokenRequest(chal[:], nonce[:], bl, x.iss3seq.TokenKeyID(), x.iss3seq.TokenKey(), "origin.example", x.iss3seq.NameKey())
+		must(err)
+		x.req3seq = append([]byte{}, stq.Request().Marshal()...)
 		x.inner = ref.EncodeInnerRequest(7, x.req2[3:], make([]byte, 32))
 
 		reseed("b")
@@ -508,6 +547,35 @@ func allTargets() []*target {
 				att := type3.NewRateLimitedAttester(&memCache{m: map[string]*type3.ClientState{}})
 				_ = att.VerifyRequest(*r, a[1], a[2], a[3])
 			}})
+		// a SEQUENCE on one issuer: a peer's request, then the operator registers another origin, then an honest request. Whatever
+		// the first request left behind (a lock, a half-updated table) shows in the calls that follow; a call that never
+		// returns is caught by the in-flight watchdog and confirmed in a fresh process.
+		{
+			ownPub := elliptic.MarshalCompressed(elliptic.P384(), x.ownKey.X, x.ownKey.Y)
+			notAPoint := append([]byte{0x02}, bytes.Repeat([]byte{0xff}, 48)...)
+			nk := x.iss3seq.NameKey().Marshal()
+			kid := x.iss3seq.TokenKeyID()[31]
+			seqSeeds := [][]byte{
+				sealedRequest(nk, ownPub, kid, "origin.example", x.ownKey),       // well-formed and correctly signed
+				sealedRequest(nk, notAPoint, kid, "origin.example", x.ownKey),    // sealed for a request key that is no point
+				sealedRequest(nk, ownPub, kid, "unregistered.example", x.ownKey), // unknown origin
+				sealedRequest(nk, ownPub[:48], kid, "origin.example", x.ownKey),  // 48-byte request key
+				sealedRequest(nk, ownPub, kid^0xff, "origin.example", x.ownKey),  // other token key id inside
+				x.req3seq,
+			}
+			var late int
+			add(&target{name: "type3.Issuer.Evaluate;AddOrigin;Evaluate", heavy: true, fields: []int{0, 1, 83, 84}, seeds: seqSeeds,
+				run: func(in []byte) {
+					iss := x.iss3seq
+					_, _, _ = iss.Evaluate(in)
+					late++
+					_ = iss.AddOrigin(fmt.Sprintf("late-%d.example", late%512))
+					_ = iss.OriginIndexKey("origin.example")
+					if _, _, err := iss.Evaluate(x.req3seq); err != nil {
+						panic(fmt.Sprintf("after a peer's request and AddOrigin, the issuer refuses an honest request: %v", err))
+					}
+				}})
+		}
 		add(&target{name: "type3.Attester.VerifyRequest", heavy: true, packed: 4, fields: []int{0, 1, 2, 3, 85, 86},
 			seeds: [][]byte{pack(x.req3, x.blind3, x.client3, x.anon)},
 			run: func(in []byte) {
